@@ -424,6 +424,9 @@ func validSQLState(s string) bool {
 }
 
 func allDigits(s string) bool {
+	if len(s) > 1 && s[0] == '-' {
+		s = s[1:]
+	}
 	if s == "" {
 		return false
 	}
